@@ -4,6 +4,9 @@ pub mod c02;
 pub mod c04;
 pub mod c09;
 pub mod c10;
+pub mod c11;
+pub mod c12;
+pub mod c16a;
 pub mod c18;
 pub mod lc;
 
@@ -12,6 +15,9 @@ pub fn get(id: &str, tier: Tier) -> Option<PropertyDef> {
         "C01" => Some(c01::def(tier)),
         "C09" => Some(c09::def(tier)),
         "C10" => Some(c10::def(tier)),
+        "C11" => Some(c11::def(tier)),
+        "C12" => Some(c12::def(tier)),
+        "C16" => Some(crate::engine::PropertyDef { id: "C16", rule: "A: library level incremental index", assumptions: vec![], subs: vec![c16a::def_sub(tier)], workers: 16 }),
         "C18" => Some(c18::def(tier)),
         "C02" => Some(c02::def(tier)),
         "C04" => Some(c04::def(tier)),
